@@ -106,8 +106,10 @@ def _frag_spec(skel, aps, ap_pos, tag, eoff, apoff):
     return rows, blist
 
 
-def build(cls, rows, blist, coords, name, charge, mult, decorate=True):
-    """a fresh molli object from the rows; `coords` overrides the row coordinates (posed)"""
+def build(cls, rows, blist, coords, name, charge, mult, decorate=True, ap_first=False):
+    """a fresh molli object from the rows; `coords` overrides the row coordinates (posed).
+    ap_first: the bond of every attachment point is stored as (AP, neighbour) instead of (neighbour, AP) -
+    Bond(a, b) == Bond(b, a), both storage orders are legitimate inputs"""
     m = cls(name=name, charge=charge, mult=mult)
     for k, (lab, el, _c, is_ap) in enumerate(rows):
         if is_ap:
@@ -138,9 +140,11 @@ def build(cls, rows, blist, coords, name, charge, mult, decorate=True):
                 f_order=1.5 + 0.25 * n,
                 label=f"b{n}",
             )
+        if ap_first and "AP" in l2 and "AP" not in l1:
+            l1, l2 = l2, l1
         b = m.connect(l1, l2, **kw)
         if decorate:
-            b.attrib = {"n": n, "ends": l1 + "-" + l2}
+            b.attrib = {"n": n, "ends": "-".join(sorted((l1, l2)))}
     return m
 
 
@@ -480,8 +484,9 @@ def make_pair(ctx, case):
             ax = [u1, u2, (u1 + u2) / math.sqrt(2.0), (u1 - 2.0 * u2) / math.sqrt(5.0)][int(tilt[1]) % 4]
             vA = N.rot_axis_angle(ax, math.radians(float(tilt[0]))) @ vA
         cB[iB] = cB[anB] + float(rel) * vA
-    A = build(cls, rowsA, blA, cA, "fragA", case.get("qA", 0), case.get("mA", 1))
-    B = build(cls, rowsB, blB, cB, "fragB", case.get("qB", 0), case.get("mB", 1))
+    apo = case.get("ap_first", [False, False])
+    A = build(cls, rowsA, blA, cA, "fragA", case.get("qA", 0), case.get("mA", 1), ap_first=bool(apo[0]))
+    B = build(cls, rowsB, blB, cB, "fragB", case.get("qB", 0), case.get("mB", 1), ap_first=bool(apo[1]))
     for frag, tag, aps_, use_, key in ((A, "A", apsA, useA, "elemA"), (B, "B", apsB, useB, "elemB")):
         if case.get(key) is not None:
             frag.get_atom(f"{tag}{aps_[use_]}").element = case[key]
@@ -564,7 +569,7 @@ def _wants(case, qA, qB, mA, mB):
     return wc, wm
 
 
-GEOM_SYMPTOMS_PREFIX = ("fragment-", "new-bond", "B's-", "non-finite", "coords-shape", "result-depends", "rng-", "raised-")
+GEOM_SYMPTOMS_PREFIX = ("fragment-", "new-bond", "B's-", "non-finite", "coords-shape", "result-depends", "rng-", "raised-", "baseline-")
 
 
 def exec_join(ctx, case):
@@ -633,6 +638,24 @@ def exec_join(ctx, case):
         return found, r0, calls0
 
     found, r0, calls0 = run_all(None, True)
+    if any(case.get("ap_first", [False, False])) and r0 is not None and not found:
+        # differential: the same fragments with their attachment bonds stored as (neighbour, AP) give the same molecule
+        base_case = dict(case, ap_first=[False, False])
+        cls_b, A_b, B_b, iA_b, iB_b = make_pair(ctx, base_case)
+        rb, errb, _ = _call_join(cls_b, A_b, B_b, iA_b, iB_b, base_case, N.answer_sequence(N.RNG_MENU[0]), 1)
+        ctx.count(transitions=1)
+        if errb or rb is None:
+            found.append(("baseline-storage-order:" + str(errb), f"the join of the same fragments with (neighbour, AP) bonds failed: {errb}"))
+        else:
+            X, Xb = np.asarray(r0.coords, dtype=float), np.asarray(rb.coords, dtype=float)
+            lab, labb = [a.label for a in r0.atoms], [a.label for a in rb.atoms]
+            if lab != labb or X.shape != Xb.shape or float(np.max(np.abs(X - Xb))) > gtol * N.mag(X, Xb):
+                found.append(
+                    (
+                        "result-depends-on-storage-order-of-the-attachment-bond",
+                        f"storing the attachment bond(s) as (AP, neighbour) {case.get('ap_first')} changes the product: max coordinate difference {float(np.max(np.abs(X - Xb))) if X.shape == Xb.shape else float('nan'):.3g}",
+                    )
+                )
     if calls0:
         ctx.add_note("join_cases_consuming_rng")
     ctx.add_note("join_cases_ap_vectors_" + vcls)
@@ -745,6 +768,7 @@ def part_join(ctx, spec):
                         "by_atom": bool((ia + ib) % 2),
                         "newbond": (ia + ib + pb_) % 5 == 0,
                         "cls": "Structure" if (ia + 2 * ib + pb_) % 7 == 0 else "Molecule",
+                        "ap_first": [bool((ia + pb_) % 3 == 1), bool((ib + pb_) % 3 == 2)],
                     }
                     exec_join(ctx, case)
                     if ia == 2 and ib == 9 and pb_ == 3 and dist == 1.0:
@@ -867,6 +891,48 @@ def part_deflen(ctx, spec):
             ctx.sample(c)
 
 
+def aporder_cases(thorough):
+    """storage order of the attachment bond: (neighbour, AP) / (AP, neighbour), for A and for B"""
+    frs = [(sk, list(aps), 0, AP_POS[n % 3]) for n, (sk, aps) in enumerate(single_ap_frags())]
+    frs += [("s4", [1, 2], 1, "after"), ("r3", [0, 1], 0, "first"), ("p3", [0, 2], 0, "last")]
+    asel = range(len(frs)) if thorough else [0, 2, 5, 8, 12, 15, 17, 19]
+    bsel = range(len(frs)) if thorough else [1, 3, 6, 9, 13, 16, 18, 19]
+    out = []
+    for ia in asel:
+        for ib in bsel:
+            for oa, ob in ((True, False), (False, True), (True, True)):
+                for ci, cls in enumerate(("Molecule", "Structure")):
+                    for opt in (False, True):
+                        k = ia + ib + ci + int(opt) + int(oa) + 2 * int(ob)
+                        if not thorough and (k + ci) % 2:
+                            continue
+                        out.append(
+                            {
+                                "family": "join",
+                                "A": list(frs[ia]),
+                                "B": list(frs[ib]),
+                                "ap_first": [oa, ob],
+                                "cls": cls,
+                                "opt": opt,
+                                "dist": DISTS[k % 3],
+                                "poseA": ia % 6,
+                                "poseB": (ia + ib + 2) % 6,
+                                "eoffA": ia % 4,
+                                "eoffB": (ib + 1) % 4,
+                                "by_atom": bool(k % 2),
+                            }
+                        )
+    return out
+
+
+def part_aporder(ctx, spec):
+    lo, hi = spec
+    for i, c in enumerate(aporder_cases(ctx.thorough)[lo:hi]):
+        exec_join(ctx, c)
+        if lo == 0 and i == 1:
+            ctx.sample(c)
+
+
 # =====================================================================================================
 # iterated joins through scripts/combine.py
 # =====================================================================================================
@@ -909,7 +975,7 @@ def exec_asm(ctx, case):
     sk, aps, pos = case["core"]
     rows, bl = frag_spec(sk, tuple(aps), pos, "K", eoff=case.get("eoff", 0))
     Mc, tc = N.pose_matrix(case.get("pose", 0))
-    core = build(ml.Molecule, rows, bl, [c @ G for c in _pose_coords(rows, Mc, tc)], "core", case.get("qK", 0), case.get("mK", 1))
+    core = build(ml.Molecule, rows, bl, [c @ G for c in _pose_coords(rows, Mc, tc)], "core", case.get("qK", 0), case.get("mK", 1), ap_first=bool(case.get("ap_first_core")))
     labs = [r[0] for r in rows]
     ap_idx_by_k = [labs.index(f"KAP{k}") for k in range(len(aps))]
     order = [int(x) for x in case["order"]]  # core_aps[j] = index of attachment point number order[j]
@@ -925,7 +991,7 @@ def exec_asm(ctx, case):
         srows, sbl = frag_spec(ssk, tuple(saps), spos, f"S{sn}x" if case.get("share_objects", True) else f"S{sn}u{j}", eoff=sn + 1, apoff=7)
         # never the core's pose: the attachment vectors of an assembly case are in general position
         Ms, ts = N.pose_matrix((case.get("pose", 0) + 1 + (sn + j) % (len(N.POSES) - 1)) % len(N.POSES))
-        s = build(ml.Molecule, srows, sbl, [c @ G for c in _pose_coords(srows, Ms, ts)], f"sub{sn}", case.get("qS", [0, 0, 0])[j], case.get("mS", [1, 1, 1])[j])
+        s = build(ml.Molecule, srows, sbl, [c @ G for c in _pose_coords(srows, Ms, ts)], f"sub{sn}", case.get("qS", [0, 0, 0])[j], case.get("mS", [1, 1, 1])[j], ap_first=bool(case.get("ap_first_subs")))
         pool[sn] = s
         subs_objs.append(s)
     pk = Part(core, list(core_aps))
@@ -1025,6 +1091,8 @@ def asm_cases(thorough):
                     "qS": [Q_MENU[(k + j) % 3] for j in range(nap)],
                     "mS": [M_MENU[(k + 2 * j) % 3] for j in range(nap)],
                     "share_objects": True,
+                    "ap_first_core": k % 3 == 1,
+                    "ap_first_subs": k % 4 == 2,
                 }
                 cases.append(case)
                 if len(set(st)) < len(st) and (thorough or k % 2 == 0):
@@ -1527,7 +1595,7 @@ def part_main(ctx, spec):
 
 # =====================================================================================================
 EXEC = {"join": exec_join, "asm": exec_asm, "rejoin": exec_rejoin, "main": exec_main}
-PARTS = {"join": part_join, "qm": part_qm, "par": part_par, "asm": part_asm, "rejoin": part_rejoin, "near": part_near, "main": part_main, "deflen": part_deflen}
+PARTS = {"join": part_join, "qm": part_qm, "par": part_par, "asm": part_asm, "rejoin": part_rejoin, "near": part_near, "main": part_main, "deflen": part_deflen, "aporder": part_aporder}
 
 
 def _run_part(ctx, part):
@@ -1561,7 +1629,9 @@ def run(ctx):
         "antiparallel attachment vectors (" + par_text + " x {global pose, both anchors at the origin, axis aligned} x optimize_rotation) with EVERY "
         "answer of a 12-entry numpy.random.rand menu (+ answers parallel to v2 when they lie in [0,1)^3); every case is executed at least twice "
         "with different answers and different global generator seeds; iterated joins through scripts/combine._ml_assemble for every order of "
-        "core_aps; join without dist for every ordered pair of anchor elements out of 24 elements with a single-bond radius + one without (625 pairs); the entry point molli_main driven in-process with an argument vector on .mlib files (cores with 2 and 3 labelled attachment "
+        "core_aps; the storage order of the attachment bond - (neighbour, AP) or (AP, neighbour) - for A, for B and for both, x Molecule/Structure x "
+        "optimize_rotation, judged by the geometric oracle and differentially against the (neighbour, AP) product (also rotated through the general "
+        "join family and the assembly cores/substituents); join without dist for every ordered pair of anchor elements out of 24 elements with a single-bond radius + one without (625 pairs); the entry point molli_main driven in-process with an argument vector on .mlib files (cores with 2 and 3 labelled attachment "
         "points: every placement of the labels on the attachment points x every order of -a on the command line x modes "
         "{permutns, same, combns, combns_repl} x routes {by label, one shared label, by atom type}, one or two cores per library), products read "
         "back from the output library and identified by marker elements; near-degenerate relative orientations: B's attachment vector turned by {0.01, 0.3, 1, 2, 5} degrees off exactly antiparallel "
@@ -1609,6 +1679,10 @@ def run(ctx):
     na = len(asm_cases(thorough))
     for lo, hi in _chunks(na, 16):
         parts.append(("asm", (lo, hi)))
+    no = len(aporder_cases(thorough))
+    for lo, hi in _chunks(no, 8):
+        parts.append(("aporder", (lo, hi)))
+    ctx.bound["attachment_bond_storage_order_cases"] = no
     nd = len(deflen_cases(thorough))
     for lo, hi in _chunks(nd, 4):
         parts.append(("deflen", (lo, hi)))
